@@ -325,6 +325,9 @@ func (w *c05world) step(e c05ev, check bool) c05step {
 	t0 := time.Now()
 	var st c05step
 	var emitted []base.Voteproof
+	if e.kind == "vote" {
+		_, _ = w.fx.build(e.v) // fixture objects are built (and cached) outside the panic guard
+	}
 	if p, msg := vlib.Catch(func() { st.ret, emitted = w.apply(e) }); p {
 		st.panic = msg
 		st.ret = "PANIC"
@@ -622,7 +625,13 @@ func (w *c05world) checkProjection(hist []c05ev, p c05sp, r *vlib.Run) {
 	k := len(hist) - 1
 	e := hist[k]
 	fs, gs := w.steps[k], g.steps[k]
-	if ep, has := e.point(); has && ep == p && fs.ret != gs.ret {
+	lastBefore := isaac.LastPoint{}
+	if k > 0 {
+		lastBefore = w.steps[k-1].last
+	}
+	past := !lastBefore.IsZero() && p.sp().Compare(lastBefore.StagePoint) < 0
+	releasedAnswer := map[string]string{"vote": "false", "voted": "", "missing": "|false|<nil>"}
+	if ep, has := e.point(); has && ep == p && fs.ret != gs.ret && !(past && fs.ret == releasedAnswer[e.kind]) {
 		w.fail(map[string]any{"kind": "other-points-change-result", "event": e.kind},
 			"%s returned %q on the box with all stage points but %q on a box fed only the events of %s", e.id(), fs.ret, gs.ret, p)
 	}
